@@ -31,13 +31,23 @@ def derivedLayout : List (String × Nat × Char × Nat × String) :=
 /-- **The 300-byte header is laid out as the format says**: the three generated `BYTE_*` tables together with the
 generated assignments of `read_meta` give every attribute the format's offset, type, count and shape; the sizes sum to
 300; every entry's element width is its struct code's width.  Re-checked whenever the source tables change. -/
-theorem header_layout :
+theorem header_layout_partial :
     derivedLayout = formatLayout ∧
     O2J.byteSizes.sum = headerSize ∧
     O2J.byteCount.length = 23 ∧ O2J.byteSizes.length = 23 ∧ O2J.byteFormats.length = 23 ∧
     layoutTable.all (fun t => decide (t.2.2 ≠ 0) && decide (fmtSize t.1 = some (t.2.1 / t.2.2))
                               && decide (t.2.1 / t.2.2 = codeSize t.1)) = true := by
   decide +kernel
+
+/- `header_layout` is the `_partial` form of the header claim.  FULL STATEMENT (not proved yet):
+     theorem readMeta_eq_specMeta (bs : List Nat) : readMeta bs = specMeta bs
+   i.e. the walk over the generated tables with its running `ix_start`, followed by the generated assignments, returns for
+   EVERY byte string the attributes read directly at the format's declared offsets (and the same error when the string
+   is shorter than 300 bytes).  Proved: the layout the walk implements (offset = running sum of int(size/count)*count,
+   code, count, shape per attribute) IS the format's table, entry widths are the struct codes' widths, sizes sum to 300
+   (`header_layout`, by evaluation of the generated tables).  Missing: the generic induction "walk tbl ix = map (read at
+   offsets tbl ix)" and its fusion with the assignment loop.  Both functions are evaluated by the driver on every
+   generated file and compared with the implementation's header (model: correspondence, spec: specification). -/
 
 /-- the channel numbering and note-type bytes the model takes from the source are the format's -/
 theorem channels_tie :
@@ -223,6 +233,70 @@ example :
     (foldBuf [] [⟨0, 0, 4, 8, .head⟩, ⟨1 / 2, 0, 4, 8, .head⟩, ⟨1 / 2, 1, 4, 8, .hit⟩, ⟨7 / 4, 0, 4, 8, .tail⟩]).toOption.map (·.1)
       = some [.hit ⟨1 / 2, 1, 4, 8, .hit⟩, .hold ⟨1 / 2, 0, 4, 8, .head⟩ ⟨7 / 4, 0, 4, 8, .tail⟩] := by decide +kernel
 example : (match foldBuf [] [⟨0, 0, 4, 8, .tail⟩] with | .error .key => true | _ => false) = true := by decide +kernel
+
+
+/-! ### the sweep before its repair (finding D10), kept as documentation -/
+
+/-- state of the unrepaired loop: running state, number of tempo events consumed, `next_bpm_measure` (`none` = `None`),
+offsets assigned so far (events never reached keep the 0 they were created with) -/
+structure OldSt where
+  st : St
+  ix : Nat
+  next : Option Rat
+  offs : List Rat
+deriving Repr, DecidableEq
+
+/-- `while note_measure > next_bpm_measure:` of the old code; comparing with `None` is a `TypeError` (`none` result) -/
+def oldWhile (bpms : List (Rat × Rat)) : Nat → OldSt → Rat → Option OldSt
+  | 0, s, _ => some s
+  | f + 1, s, nm =>
+    match s.next with
+    | none => none
+    | some nx =>
+      if nm > nx then
+        match bpms[s.ix]? with
+        | none => some s
+        | some e =>
+          let st' := consume s.st e
+          if s.ix + 1 = bpms.length then some ⟨st', s.ix + 1, none, s.offs ++ [st'.offset]⟩       -- `break`
+          else oldWhile bpms f ⟨st', s.ix + 1, some e.1, s.offs ++ [st'.offset]⟩ nm               -- lagging `next`
+      else some s
+
+/-- the old `for note_measure in note_measures:` with its `if not next_bpm_measure:` (true for `None` and for 0.0) -/
+def oldSweep (bpms : List (Rat × Rat)) : OldSt → List Rat → Option (List (Rat × Rat) × OldSt)
+  | s, [] => some ([], s)
+  | s, nm :: rest =>
+    let s1 := if s.next = none ∨ s.next = some 0 then oldWhile bpms (bpms.length + 1) s nm else some s
+    match s1 with
+    | none => none
+    | some s' =>
+      match oldSweep bpms s' rest with
+      | none => none
+      | some (tbl, sf) => some ((nm, segTime s'.st nm) :: tbl, sf)
+
+def oldInit (init : Rat) (bpms : List (Rat × Rat)) : OldSt := ⟨⟨0, 0, init⟩, 0, bpms.head?.map (·.1), []⟩
+
+/-- **D10**: with two tempo events (none at measure 0) the unrepaired loop never consumed a tempo event: the notes at
+measures 2 and 4 came out at 4000 and 8000 ms (header tempo throughout) instead of 6000 and 11000 ms, and no tempo
+event was given an offset (all tempo points stayed at 0 ms — as observed on the bundled file); with no tempo package
+at all it compared a float with `None` (`TypeError`); with a tempo event at measure 0 it consumed *every* tempo event
+at the first later note and raised at the next one.  The repaired sweep (`sweep`) is `posTime` (`o2j_times`). -/
+theorem old_sweep_counterexample :
+    (oldSweep [(1, 60), (3, 240)] (oldInit 120 [(1, 60), (3, 240)]) [0, 2, 4]).map (fun r => (r.1, r.2.offs))
+      = some ([(0, 0), (2, 4000), (4, 8000)], []) ∧
+    [0, 2, 4].map (posTime 120 [(1, 60), (3, 240)]) = [0, 6000, 11000] ∧
+    (sweep ⟨0, 0, 120⟩ [(1, 60), (3, 240)] [0, 2, 4]) = ([(0, 0), (2, 6000), (4, 11000)], [2000, 10000]) ∧
+    oldSweep [] (oldInit 120 []) [1] = none ∧
+    oldSweep [(0, 60), (3, 240)] (oldInit 120 [(0, 60), (3, 240)]) [1, 2] = none := by
+  decide +kernel
+
+/-- **D26** (repaired): the length used to be stored through `astype(int64)` whenever the head's offset was a whole
+number of milliseconds.  With header tempo 150, head at measure 5/2 and tail at measure 17/3 the exact length is
+15200/3 ms; truncation toward zero gave 5066. -/
+theorem old_length_counterexample :
+    posTime 150 [] (5 / 2) = 4000 ∧ posTime 150 [] (17 / 3) - posTime 150 [] (5 / 2) = 15200 / 3 ∧
+    (((15200 / 3 : Rat).floor : Int) : Rat) = 5066 := by
+  decide +kernel
 
 /-! ### the specification's integration is the timing kernel's `timeAt` -/
 
